@@ -5,7 +5,7 @@ the body is executed for every shape of a bounded table and the set of element w
 Values: int, bool, Mat (a named matrix with a shape), ("elem", matrix name, linear index) for a read element, tuples.
 """
 import re
-from lib.facts import is_node
+from lib.facts import is_node, walk as _walk
 
 
 class NoEval(Exception):
@@ -19,6 +19,23 @@ class Panic(Exception):
 class Return(Exception):
     def __init__(self, value):
         self.value = value
+
+
+class TI(int):
+    """an integer of a fixed-width Rust kind: + - * outside [lo, hi] panic (debug-build overflow checks)"""
+    def __new__(cls, v, lo, hi):
+        o = int.__new__(cls, v)
+        o.lo, o.hi = lo, hi
+        return o
+
+
+def ti_like(a, b, v):
+    t = a if isinstance(a, TI) else b if isinstance(b, TI) else None
+    if t is None or isinstance(v, bool) or not isinstance(v, int):
+        return v
+    if not (t.lo <= v <= t.hi):
+        raise Panic("arithmetic overflow: %d outside [%d, %d]" % (v, t.lo, t.hi))
+    return TI(v, t.lo, t.hi)
 
 
 class Mat:
@@ -49,13 +66,29 @@ class Machine:
             return int(re.sub(r"[^0-9].*$", "", str(e[1])) or 0)
         if t == "bool":
             return bool(e[1])
+        if t == "lit":
+            try:
+                return float(re.sub(r"(f32|f64)$", "", str(e[1]).replace("_", "")))
+            except ValueError:
+                raise NoEval("lit " + str(e[1])[:20])
         if t == "paren":
             return r(e[1])
         if t == "ref":
             return r(e[2])
         if t == "cast":
             v = r(e[1])
-            return int(v) if isinstance(v, bool) else v
+            ty = str(e[2]).strip()
+            if isinstance(v, bool):
+                return int(v)
+            if ty in ("f64", "f32"):
+                return float(v)
+            if ty in ("usize", "u64", "u32", "isize", "i64") and isinstance(v, float):
+                if v != v:
+                    return 0
+                return max(0, int(v)) if ty[0] == "u" else int(v)
+            if ty in ("usize", "u64", "u32", "isize", "i64") and isinstance(v, TI):
+                return int(v)
+            return v
         if t == "tuple":
             return tuple(r(x) for x in e[1])
         if t in ("unsafe", "block"):
@@ -80,9 +113,43 @@ class Machine:
                     raise Panic("read %s[(%d,%d)]" % (b.name, i[0], i[1]))
                 return ("elem", b.name, i[1] * b.rows + i[0])
             raise NoEval("index")
+        if t == "field" and is_node(e[1]) and e[1][0] == "path" and e[1][1] == "self" and ("self." + str(e[2])) in self.env:
+            return self.env["self." + str(e[2])]
+        if t == "try":
+            v = r(e[1])
+            if isinstance(v, tuple) and v and v[0] == "err":
+                raise Return(v)
+            return v
+        if t == "call":
+            f = e[1][1] if is_node(e[1]) and e[1][0] == "path" else None
+            if f is None:
+                raise NoEval("call")
+            last = f.split("::")[-1]
+            if last == "Err":
+                names = [n[1].split("::")[-1] for a in e[2] for n in _walk(a) if n[0] == "struct"]
+                return ("err", names[0] if names else "?")
+            if last in ("Ok", "Some") and len(e[2]) == 1:
+                return r(e[2][0])
+            if last in ("zero", "one") and not e[2] and "::" in f:
+                v = 0 if last == "zero" else 1
+                k = self.env.get("$kind")
+                if isinstance(k, TI):
+                    return TI(v, k.lo, k.hi)
+                return float(v) if k == "float" else v
+            if last in ("max", "min") and len(e[2]) == 2:
+                a, b = r(e[2][0]), r(e[2][1])
+                return max(a, b) if last == "max" else min(a, b)
+            raise NoEval("call " + f)
         if t == "mcall":
             v = r(e[1])
             m = e[2]
+            if isinstance(v, float) and m in ("floor", "ceil", "abs", "trunc", "round") and not e[4]:
+                import math
+                return {"floor": math.floor, "ceil": math.ceil, "abs": abs, "trunc": math.trunc, "round": round}[m](v) * 1.0
+            if m in ("map_err", "with_compiler_loc", "with_tokens"):
+                return v
+            if m == "try_into" and isinstance(v, int) and not isinstance(v, bool):
+                return int(v) if v >= 0 else ("err", "TryFromIntError")
             if m in ("clone", "into", "to_owned", "as_ptr", "as_mut_ptr", "borrow", "borrow_mut", "as_ref", "as_mut"):
                 return v
             if isinstance(v, Mat):
@@ -134,9 +201,17 @@ class Machine:
             raise NoEval("bool arithmetic")
         try:
             if op == "-":
-                if isinstance(a, int) and isinstance(b, int) and a - b < 0:
+                if isinstance(a, TI) or isinstance(b, TI):
+                    return ti_like(a, b, int(a) - int(b))
+                if isinstance(a, int) and isinstance(b, int) and not isinstance(a, bool) and a - b < 0:
                     raise Panic("usize underflow %d - %d" % (a, b))
                 return a - b
+            if op in ("+", "*") and (isinstance(a, TI) or isinstance(b, TI)) and isinstance(a, int) and isinstance(b, int):
+                return ti_like(a, b, int(a) + int(b) if op == "+" else int(a) * int(b))
+            if op == "/" and isinstance(a, float) or op == "/" and isinstance(b, float):
+                if b == 0:
+                    return float("inf") if a > 0 else float("-inf") if a < 0 else float("nan")
+                return a / b
             if op in ("/", "%") and b == 0:
                 raise Panic("division by zero")
             return {"!=": lambda: a != b, "==": lambda: a == b, "<": lambda: a < b, ">": lambda: a > b, "<=": lambda: a <= b, ">=": lambda: a >= b,
